@@ -211,6 +211,10 @@ def hazards(d):
     with_('group-cycle-2', 'g1 -> g2 -> g1', group=[{'name': 'g1', 'hooks': ['g2']}, {'name': 'g2', 'hooks': ['g1']}], certificate=cert(['g1']))
     with_('group-cycle-3', 'g1 -> g2 -> g3 -> g1', group=[{'name': 'g1', 'hooks': ['h1', 'g2']}, {'name': 'g2', 'hooks': ['g3']}, {'name': 'g3', 'hooks': ['h1', 'g1']}], certificate=cert(['g1']))
     with_('group-cycle-nested', 'cycle below a healthy group', group=[{'name': 'top', 'hooks': ['h1', 'g1']}, {'name': 'g1', 'hooks': ['g2']}, {'name': 'g2', 'hooks': ['g1']}], certificate=cert(['top']))
+    with_('group-cycle-self-after-hook', 'group listing a hook and then itself', group=[{'name': 'g1', 'hooks': ['h1', 'g1']}], certificate=cert(['g1']))
+    with_('group-cycle-2-after-hook', 'g1 = [h1, g2], g2 = [h1, g1]', group=[{'name': 'g1', 'hooks': ['h1', 'g2']}, {'name': 'g2', 'hooks': ['h1', 'g1']}], certificate=cert(['g1']))
+    with_('group-cycle-middle', 'back-reference in the middle of the member list', group=[{'name': 'g1', 'hooks': ['h1', 'g2', 'h1']}, {'name': 'g2', 'hooks': ['h1', 'h1', 'g1', 'h1']}], certificate=cert(['h1', 'g1']))
+    with_('group-diamond', 'two groups sharing a sub-group (no cycle)', group=[{'name': 'top', 'hooks': ['l', 'r']}, {'name': 'l', 'hooks': ['leaf']}, {'name': 'r', 'hooks': ['leaf', 'h1']}, {'name': 'leaf', 'hooks': ['h1']}], certificate=cert(['top', 'leaf']))
     with_('group-cycle-account', 'cycle referenced by an account', group=[{'name': 'g1', 'hooks': ['g1']}], account=acc(['g1']))
     with_('group-cycle-unused', 'a cycle nobody references', group=[{'name': 'g1', 'hooks': ['g1']}])
     with_('group-deep', 'a 300-level group chain without cycle', group=[{'name': 'g%d' % i, 'hooks': ['g%d' % (i + 1)] if i < 299 else ['h1']} for i in range(300)], certificate=cert(['g0']))
@@ -250,6 +254,35 @@ def hazards(d):
     with_('account:eab-bad-alg', 'external account with RS256', account=[dict(b['account'][0], external_account={'identifier': 'k', 'key': 'YWJj', 'signature_algorithm': 'RS256'})])
     with_('name:template-injection', 'template syntax in file_name_format', **{'global': dict(b['global'], file_name_format='{{ name | nofilter }}{% endfor %}')})
     with_('name:odd-certificate-name', 'slashes and stars in the name', certificate=[dict(b['certificate'][0], name='../*:/x')])
+    return out
+
+
+def random_group_graphs(d, r, n):
+    """Random group graphs; cyclic ones reachable from the certificate must be rejected, the others must load."""
+    b = base_configs(d)[1]
+    out = []
+    for k in range(n):
+        ng = r.randint(1, 5)
+        names = ['q%d' % i for i in range(ng)]
+        groups = []
+        for g in names:
+            members = [r.choice(['h1'] + names) for _ in range(r.randint(1, 4))]
+            groups.append({'name': g, 'hooks': members})
+        used = [r.choice(names)] + (['h1'] if r.random() < 0.5 else [])
+        gm = {g['name']: g['hooks'] for g in groups}
+
+        def cyclic(n_, stack=()):
+            if n_ == 'h1':
+                return False
+            if n_ in stack:
+                return True
+            return any(cyclic(m, stack + (n_,)) for m in gm[n_])
+        cyc = any(cyclic(u) for u in used)
+        c = copy.deepcopy(b)
+        c['group'] = groups
+        c['certificate'] = [dict(b['certificate'][0], hooks=used)]
+        out.append({'label': 'group-graph:%s' % ('cyclic' if cyc else 'acyclic'), 'detail': 'groups %s used %s' % (gm, used), 'cfg': c,
+                    'expect': 'reject' if cyc else 'load'})
     return out
 
 
@@ -342,6 +375,10 @@ def run_probe_cases(chk, d, cases):
             c = cases[pos + k]
             rec = res[p]
             chk.evaluations += 1
+            if c.get('expect') == 'reject' and rec['load_ok']:
+                chk.violation('C19|loaded-cyclic|%s' % c['label'], 'a configuration whose hook groups contain a loop was loaded (%s)' % c['detail'], {'label': c['label'], 'detail': c['detail']})
+            if c.get('expect') == 'load' and not rec['load_ok']:
+                chk.violation('C19|rejected-acyclic|%s' % c['label'], 'a configuration with acyclic hook groups was rejected: %s (%s)' % (rec.get('err'), c['detail']), {'label': c['label'], 'detail': c['detail']})
             if rec['load_ok']:
                 chk.count('configs_loaded')
                 chk.distinct.add((c['label'], 'loaded'))
@@ -434,7 +471,7 @@ def run(tier):
     d = C.workdir('C19', 'cfg')
     try:
         check_periods(chk, 20000 if tier == 'quick' else 500000, r)
-        cases = hazards(d) + text_cases(d, r)
+        cases = hazards(d) + random_group_graphs(d, r, 60 if tier == 'quick' else 600) + text_cases(d, r)
         for label, detail, files in include_cases(d):
             cases.append({'label': label, 'detail': detail, 'files': files})
         per_field = 2 if tier == 'quick' else 8
